@@ -86,6 +86,16 @@ func runC05(w *mc.Worker) {
 			VarAcctVals: []string{"x", "a"}, PortVals: []string{"1/2", "1/3", "0/1", "1/1"}, Asset: "USD"}
 		runSendSpace(w, &sp, owns, nontriv)
 	}
+	{
+		// capped sources (also under send-all, where a cap above what its source owns must not count as
+		// drawn) and bounded overdrafts in front of every destination tree
+		src3 := &SrcCfg{Asset: "USD", Accts: ws(0, "a", "b"), Caps: ws(0, "5", "1"), Grants: ws(0, "2"), GrantAcct: ws(0, "a"), ListLens: ws(0, "2"),
+			WOverdraft: 1, WUnbounded: -1, WVar: -1, WInorder: 1, WCapped: 0, WAllot: -1}
+		sp := sendSpace{Name: "capped-source-w2", Bounds: "sources `max c from S` (c in {5,1}; S an account, an account with a bounded overdraft, or a pair of accounts) x destination trees of weight <= 2 (depth <= 2, kept in every position); fixed amounts and send-all; balances {0,1,3}^2; amounts {0,1,2,3,5,8}", Budget: 2, SrcDepth: 2, DstDepth: 2, Src: src3, Dst: c05Dst(),
+			Modes: []string{"all", "fixed"}, Accts: []string{"a", "b"}, BalDom: bigs(0, 1, 3), AmtDom: amtQ,
+			VarAcctVals: []string{"x", "a"}, PortVals: []string{"1/2", "1/3", "0/1", "1/1"}, Asset: "USD"}
+		runSendSpace(w, &sp, owns, nontriv)
+	}
 	runVarSeqSpace(w, "vars-L2", 1, 2, func(c *seqCase, vars map[string]string, bal env.Bal) {
 		judgeSeqCase(w, c, vars, bal, owns, nontriv, false)
 	})
